@@ -7,12 +7,12 @@ COQ_HEADER = "From Plotink Require Import Base.Prelude Base.PyStr Model.Serial3 
 COQ_RUN = "run19"
 COQ_CASE_TYPE = "case19"
 SHARD = 80
-RULE = ("port lists of 0..6 entries from a descriptor grammar: Windows 'USB Serial Device (COMn)' + 'USB VID:PID=04D8:FD92 SER=<tag> LOCATION=..', macOS/Linux "
+RULE = ("port lists of 0..6 entries (handed over as a list, a tuple, a one-shot generator or iterator; entries as tuples or pyserial ListPortInfo objects) from a descriptor grammar: Windows 'USB Serial Device (COMn)' + 'USB VID:PID=04D8:FD92 SER=<tag> LOCATION=..', macOS/Linux "
         "'EiBotBoard,<name>' and bare 'EiBotBoard', pyserial-2.7 'SNR=<tag>', foreign devices, names of length 0..16 and tags shorter than 3, names that are "
         "prefixes of one another; lookups by listed name, SER tag, device name and (COMn) in upper/lower/mixed case, plus absent names and None; "
         "both layers, and for the class layer also connect(name) on an object that discovered another (decoy) board before - the port it tries to open; "
         "non-trivial = at least two EBB ports in the list")
-TRUSTED = ["pyserial's comports() replaced by the generated list (tuples of device, description, hwid)"]
+TRUSTED = ["pyserial's comports() replaced by a generated enumeration (device, description, hwid)"]
 ASSUMPTIONS = ["ASCII descriptor strings"]
 
 NAMES = ["", "Bot", "Axi", "AxiDraw", "Axi 2", "East", "EAST", "x", "ab", "Plotter_01", "0123456789abcdef"]
@@ -58,13 +58,30 @@ def generate(rng, tier):
             if "SER=" in p[2]: lookups.append(_variant(rng, p[2].split("SER=")[1].split(" ")[0]))
             if p[1].startswith("EiBotBoard") and len(p[1]) > 11: lookups.append(_variant(rng, p[1][11:]))
         lookups += [rng.choice(NAMES + TAGS + ["COM3", "nothing", "("]) for _ in range(2)]
-        cases.append({"ports": ports, "lookups": lookups, "family": "n=%d" % len(ports)})
+        # what comports() hands back: a list (pyserial 3), a one-shot generator (pyserial 2.7 on Windows), a tuple; entries as plain
+        # tuples or as pyserial's own ListPortInfo objects
+        enum = rng.choice(["list", "list", "generator", "generator", "tuple", "iterator"]); ent = rng.choice(["tuple", "tuple", "ListPortInfo"])
+        cases.append({"ports": ports, "lookups": lookups, "enum": enum, "entries": ent, "family": "n=%d/%s-of-%s" % (len(ports), enum, ent)})
     return cases
 
+def _entry(p, kind):
+    if kind != "ListPortInfo": return tuple(p)
+    from serial.tools.list_ports_common import ListPortInfo
+    o = ListPortInfo(p[0]); o.description = p[1]; o.hwid = p[2]
+    return o
+
+def _enumerator(ports, kind):
+    """a stand-in for serial.tools.list_ports.comports: every call enumerates afresh"""
+    if kind == "generator": return lambda: (p for p in ports)
+    if kind == "iterator": return lambda: iter(list(ports))
+    if kind == "tuple": return lambda: tuple(ports)
+    return lambda: list(ports)
+
 def run_impl(c):
-    ports = [tuple(p) for p in c["ports"]]
-    ebb_serial.comports = lambda: list(ports)
-    ebb3_serial.comports = lambda: list(ports)
+    ports = [_entry(p, c.get("entries", "tuple")) for p in c["ports"]]
+    comports = _enumerator(ports, c.get("enum", "list"))
+    ebb_serial.comports = comports
+    ebb3_serial.comports = comports
     e3 = ebb3_serial.EBB3(); e3.find_first()
     ll = ebb_serial.listEBBports(); l3 = ebb3_serial.list_ebb_ports()
     out = {"first_l": ebb_serial.findPort(), "first_3": e3.port_name,
@@ -84,7 +101,7 @@ def run_impl(c):
             obj = ebb3_serial.EBB3()
             ebb3_serial.comports = lambda: [("/dev/ttyDECOY", "EiBotBoard", "USB VID:PID=04D8:FD92 SER=Decoy LOCATION=9")]
             obj.find_first()
-            ebb3_serial.comports = lambda: list(ports)
+            ebb3_serial.comports = comports
             del opened[:]
             obj.connect(n)
             out["objlk"].append(opened[0] if opened else None)
